@@ -296,7 +296,12 @@ func (d *drv) seeded(t int, mode string, seed int64) {
 	d.start(t, sc)
 	clients := selgen.SortedKeys(sc.Clients)
 	crashes, errs := 0, 0
+	faulty := rnd.Intn(2) == 0 // half of the runs stay crash- and error-free, so that quiescent points are meaningful
 	for n := 150 + rnd.Intn(150); n > 0; n-- {
+		if n%45 == 0 {
+			// let every call finish: a quiescent point in the middle of the run
+			must(d.sched.Drain(func(names []string) string { return names[rnd.Intn(len(names))] }, 100000))
+		}
 		pend := d.wait()
 		var idle, blocked []string
 		for _, c := range clients {
@@ -335,10 +340,10 @@ func (d *drv) seeded(t int, mode string, seed int64) {
 			switch y := rnd.Intn(100); {
 			case y < 6:
 				f = memkv.FaultConflict
-			case y < 8 && errs < 2:
+			case y < 8 && errs < 2 && faulty:
 				f = memkv.FaultError
 				errs++
-			case y < 9 && crashes < 1:
+			case y < 9 && crashes < 1 && faulty:
 				crashes++
 				d.crash(c)
 				continue
